@@ -378,6 +378,8 @@ def assembly_layering_rule(ctx, rule: str):
             elif isinstance(node, ast.Call) and isinstance(node.func, ast.Attribute) and node.func.attr in ("span", "group") and not (
                     isinstance(node.func.value, ast.Name) and node.func.value.id in ("match", "m")):
                 why = "does span/group arithmetic on a structure match"
+            elif isinstance(node, ast.Attribute) and node.attr == "seq" and isinstance(node.ctx, ast.Load):
+                why = "reads the raw sequence of a record (linear coordinates: where the origin sits then matters)"
             elif isinstance(node, ast.BinOp) and isinstance(node.op, (ast.LShift, ast.RShift)):
                 why = "rotates a record itself"
             elif isinstance(node, ast.Subscript) and isinstance(node.slice, ast.Slice):
@@ -664,6 +666,9 @@ def text_consumers_rule(ctx, rule: str):
                 if isinstance(par, ast.Call) and n in par.args:
                     f = par.func
                     ok = (isinstance(f, ast.Attribute) and f.attr in ("match", "fullmatch")) or (isinstance(f, ast.Name) and f.id in ("len", "str"))
+                    if not ok and ast.unparse(f) in ("functools.partial", "partial") and par.args and isinstance(par.args[0], ast.Attribute) \
+                            and par.args[0].attr in ("match", "fullmatch") and n in par.args[1:]:
+                        ok = True  # the compiled pattern's match, with the text bound in advance
                     g = helper_of(fi, par) if not ok else None
                     if g is not None and not any(isinstance(x, ast.Starred) for x in par.args):
                         # handed to a helper: the helper's uses of that parameter are checked in turn
@@ -722,7 +727,10 @@ def order_independence_rule(ctx, rule: str):
             return True
         if isinstance(par, ast.Starred):
             return True
-        if isinstance(par, ast.Call) and node in par.args and isinstance(par.func, ast.Name) and par.func.id in ("list", "tuple", "set", "len", "sorted", "frozenset"):
+        if isinstance(par, ast.Call) and node in par.args and isinstance(par.func, ast.Name) and par.func.id in (
+                "list", "tuple", "set", "len", "sorted", "frozenset", "map", "filter", "zip", "enumerate", "reversed", "sum", "any", "all", "min", "max"):
+            return True
+        if isinstance(par, ast.Call) and node in par.args and ast.unparse(par.func) in ("itertools.chain", "chain", "itertools.zip_longest", "collections.Counter"):
             return True
         if isinstance(par, ast.Call) and node in par.args and depth > 0:
             # handed to a function of the repository: every use of the parameter in there consumes it as a whole
